@@ -84,13 +84,47 @@ def o_apply(spec):
     require(ref.close(state, R), lambda: f"op-by-op application differs, max|d|={ref.maxdiff(state, R):.3g}")
 
 
+@st.composite
+def circuit_with_state_and_phases(draw, tier):
+    """Gate circuits with phase-only non-gate operations interleaved (for the bundled simulator)."""
+    spec = draw(circuit_with_state(tier))
+    n = cgen.circuit_width(spec)
+    spec["width"] = n
+    if n <= 5 and draw(st.integers(0, 2)) == 0:
+        for _ in range(draw(st.integers(1, 2))):
+            spec["ops"].insert(draw(st.integers(0, len(spec["ops"]))), {"mp": [draw(st.floats(-7, 7, allow_nan=False)) for _ in range(2 ** n)]})
+    return spec
+
+
+def _symsim_classes(spec):
+    cl = set(cgen.circuit_classes({"ops": [o for o in spec["ops"] if "g" in o], "width": spec.get("width")}))
+    if any("mp" in o for o in spec["ops"]):
+        cl.add("multiphase")
+        gates_before = False
+        for o in spec["ops"]:
+            if "mp" in o and gates_before:
+                cl.add("multiphase_after_gates")
+            gates_before = gates_before or "g" in o
+    return cl
+
+
 def o_symsim(spec):
     from orquestra.quantum.runners import SymbolicSimulator
 
-    c = cgen.build_circuit(spec)
-    n = cgen.circuit_width(spec)
+    if any("mp" in o for o in spec["ops"]):
+        n = spec["width"]
+        c = _build_split({"ops": spec["ops"], "n": n})
+        M = np.eye(2 ** n, dtype=complex)
+        for o, op in zip(spec["ops"], c.operations):
+            if "mp" in o:
+                M = np.diag(np.exp(1j * np.asarray(o["mp"]))) @ M
+            else:
+                M = ref.embed(ref.npm(op.gate.matrix), op.qubit_indices, n) @ M
+    else:
+        c = cgen.build_circuit(spec)
+        n = cgen.circuit_width(spec)
+        M = own_matrix_product(c, n)
     init = cgen.state_from_seed(n, spec["sseed"])
-    M = own_matrix_product(c, n)
     sim = SymbolicSimulator()
     wf = must(lambda: sim.get_wavefunction(c, init.copy()), "get_wavefunction(init)")
     a = np.asarray(wf.amplitudes, dtype=complex).reshape(-1)
@@ -98,6 +132,58 @@ def o_symsim(spec):
     wf0 = must(lambda: sim.get_wavefunction(c), "get_wavefunction()")
     a0 = np.asarray(wf0.amplitudes, dtype=complex).reshape(-1)
     require(ref.close(a0, M[:, 0]), lambda: f"simulator state differs (default |0..0>), max|d|={ref.maxdiff(a0, M[:, 0]):.3g}")
+
+
+# ------------------------------------------------------------------ (c2) circuits that still carry free symbols
+
+
+@st.composite
+def symbolic_specs(draw, tier):
+    """A numeric circuit spec plus a list of (operation, parameter) positions written as symbols; the symbol values are
+    the numbers they replace, so substituting them must give the matrix of the numeric circuit."""
+    sz = _sizes(tier)
+    names = [g for g in cgen.NAMES if cgen.TABLE[g][1]] + ["CNOT", "H", "SWAP", "T"]
+    spec = draw(cgen.circuit_specs(max_n=min(sz["max_n"], 4), max_ops=min(sz["max_ops"], 5), maxq=3, int_powers=(2,), names=names))
+    slots = [(i, j) for i, o in enumerate(spec["ops"]) if o["g"] in cgen.TABLE and not any(m[0] == "pow" for m in o.get("mods", []))
+             for j in range(len(o["p"]))]
+    chosen = draw(st.lists(st.sampled_from(slots), unique=True, min_size=1, max_size=4)) if slots else []
+    spec["symbolised"] = [list(x) for x in chosen]
+    return spec
+
+
+def o_symbolic(spec):
+    import sympy
+
+    if not spec["symbolised"]:
+        return {"inconclusive": "no_parametric_gate"}
+    sym_spec = json.loads(json.dumps(spec))
+    vals = {}
+    for t, (i, j) in enumerate(spec["symbolised"]):
+        name = "s%d" % t
+        vals[sympy.Symbol(name)] = sympy.Float(spec["ops"][i]["p"][j])
+        sym_spec["ops"][i]["p"][j] = ["sym", name]
+    c = cgen.build_circuit(sym_spec)
+    n = cgen.circuit_width(spec)
+    require(set(c.free_symbols) == set(vals), lambda: f"free symbols {c.free_symbols}, expected {sorted(map(str, vals))}")
+    U = must(c.to_unitary, "to_unitary (free symbols)")
+    Un = ref.npm(sympy.N(sympy.Matrix(U).xreplace(vals), 20))
+    R = cgen.ref_circuit_matrix(spec, n)
+    require(ref.close(Un, R, 1e-8), lambda: f"symbolic to_unitary, evaluated at the symbols' values, differs from the closed-form product, max|d|={ref.maxdiff(Un, R):.3g}")
+    # each lifted matrix on its own
+    for k, (op, o) in enumerate(zip(c.operations, spec["ops"])):
+        L = must(lambda: op.lifted_matrix(n), "lifted_matrix")
+        Ln = ref.npm(sympy.N(sympy.Matrix(L).xreplace(vals), 20)) if hasattr(L, "xreplace") else ref.npm(L)
+        Rk = ref.embed(cgen.ref_gate_matrix(o), o["q"], n)
+        require(ref.close(Ln, Rk, 1e-8), lambda: f"op {k}: lifted matrix (symbolic) differs from the gate placed on qubits {o['q']}, max|d|={ref.maxdiff(Ln, Rk):.3g}")
+    cl = set(cgen.circuit_classes(spec))
+    sym_ops = {i for i, _ in spec["symbolised"]}
+    if any(len(spec["ops"][i]["q"]) >= 2 and spec["ops"][i]["q"] != sorted(spec["ops"][i]["q"]) for i in sym_ops):
+        cl.add("symbolic_gate_on_permuted_tuple")
+    if any(len(spec["ops"][i]["q"]) >= 3 for i in sym_ops):
+        cl.add("symbolic_gate_arity>=3")
+    if len(sym_ops) < len(spec["ops"]):
+        cl.add("mixed_numeric_symbolic")
+    return {"classes": cl, "nontrivial": "symbolic_gate_on_permuted_tuple" in cl}
 
 
 # ------------------------------------------------------------------ (d) base-class simulator, any native split
@@ -334,9 +420,11 @@ SUBCHECKS = [
     SubCheck("apply_fold", o_apply, strategy=circuit_with_state, nontrivial=_nontrivial,
              classes=_classes, examples=(300, 1000), shards=(2, 8), fork_timeout=20,
              rule="folding op.apply over a random state"),
-    SubCheck("symbolic_simulator", o_symsim, strategy=circuit_with_state, nontrivial=_nontrivial,
-             classes=_classes, examples=(300, 1000), shards=(2, 8), fork_timeout=20,
-             rule="SymbolicSimulator.get_wavefunction with given and default initial state"),
+    SubCheck("symbolic_simulator", o_symsim, strategy=circuit_with_state_and_phases, nontrivial=lambda s: len(s["ops"]) >= 2 and bool(_symsim_classes(s) & {"permuted", "non_adjacent", "idle", "multiphase_after_gates"}),
+             classes=_symsim_classes, examples=(300, 1000), shards=(2, 8), fork_timeout=20,
+             rule="SymbolicSimulator.get_wavefunction with given and default initial state, phase-only operations interleaved in a third of the circuits"),
+    SubCheck("symbolic_unitary", o_symbolic, strategy=symbolic_specs, examples=(150, 600), shards=(4, 12), fork_timeout=40,
+             rule="circuits in which 1-4 gate parameters are free symbols: to_unitary / lifted_matrix evaluated at the symbols' values vs the closed-form product of the numeric circuit; non-trivial = a symbolic multi-qubit gate on a non-ascending tuple"),
     SubCheck("native_split", o_split, strategy=split_specs, examples=(400, 1500), shards=(3, 12), fork_timeout=20,
              rule="BaseWavefunctionSimulator subclass with drawn native set + MultiPhaseOperations; non-trivial = >=1 native/non-native boundary"),
     SubCheck("concat", o_concat, strategy=concat_specs, examples=(300, 1000), shards=(2, 6), fork_timeout=20,
@@ -347,4 +435,6 @@ SUBCHECKS.append(SubCheck("session", o_session, strategy=session_specs, examples
 SUBCHECKS[-1].expected_classes = ["name_reused_with_other_matrix"]
 for _s in SUBCHECKS[:3]:
     _s.expected_classes = ["permuted", "non_adjacent", "arity3", "arity4", "idle", "wrapped", "custom"]
-SUBCHECKS[3].expected_classes = ["multiphase", "boundary", "segments>=3"]
+SUBCHECKS[2].expected_classes = SUBCHECKS[2].expected_classes + ["multiphase", "multiphase_after_gates"]
+SUBCHECKS[3].expected_classes = ["symbolic_gate_on_permuted_tuple", "symbolic_gate_arity>=3", "mixed_numeric_symbolic", "wrapped"]
+SUBCHECKS[4].expected_classes = ["multiphase", "boundary", "segments>=3"]
